@@ -1,6 +1,8 @@
 // C18 correspondence harness: drives the three real components that draw temporal
 // boundaries (ctfe.ValidateChain, client.TemporalLogClient, loglist3.TemporallyCompatible)
-// on boundary instants and shard lists, and writes the observed behaviour as Coq cases.
+// on boundary instants and shard lists, and a fourth that has to land inside them
+// (integration.NotAfterForLog, which picks the NotAfter of certificates submitted to a log with a
+// window), and writes the observed behaviour as Coq cases.
 package main
 
 import (
@@ -19,6 +21,7 @@ import (
 	"github.com/google/certificate-transparency-go/loglist3"
 	"github.com/google/certificate-transparency-go/trillian/ctfe"
 	ctfepb "github.com/google/certificate-transparency-go/trillian/ctfe/configpb"
+	"github.com/google/certificate-transparency-go/trillian/integration"
 	"github.com/google/certificate-transparency-go/x509"
 	"github.com/google/certificate-transparency-go/x509/pkix"
 	"github.com/google/certificate-transparency-go/x509util"
@@ -407,6 +410,154 @@ func main() {
 			})
 		}
 	}
+	notAfterStream(w, r, n)
 	w.Close()
 	fmt.Printf("c18: wrote %d cases\n", w.Len())
+}
+
+// notAfterStream: the fourth component.  integration.NotAfterForLog(cfg) picks the NotAfter for
+// certificates submitted to the log configured by cfg; the instant it returns must lie in the log's window
+// [start, limit) as the other three components draw it: start <= t < limit, admitted by a server with that
+// window (ValidateChain with the window options, and - every fourth case - a real instance configured from
+// the very same LogConfig) and routed to the shard by a client of that single shard.  LogConfigs with no
+// bound, a start only, a limit only and both; for both, EVERY width of a list that runs from 1 ns over the
+// neighbourhoods of 1 s and 2 s to days (with whole-second and sub-second starts), then random ones.
+func notAfterStream(w *lib.Writer, r *mrand.Rand, n int) {
+	widths := []time.Duration{1, 2, 3, 1000, 999999999, time.Second, time.Second + 1, 1500 * time.Millisecond, 2*time.Second - 1, 2 * time.Second,
+		2*time.Second + 1, 3 * time.Second, 59 * time.Second, time.Minute, time.Hour - 1, time.Hour, 2 * time.Hour, 24 * time.Hour, 48*time.Hour + 1,
+		7 * 24 * time.Hour, 365 * 24 * time.Hour}
+	type win struct {
+		lo, hi *time.Time
+		kind   string
+		width  time.Duration
+	}
+	var wins []win
+	mk := func(kind string, sub bool, width time.Duration) win {
+		base := pickInstant(r)
+		if sub {
+			base = base.Add(time.Duration(1 + r.Int63n(999999999)))
+		}
+		lim := base.Add(width)
+		switch kind {
+		case "none":
+			return win{nil, nil, kind, 0}
+		case "start-only":
+			return win{&base, nil, kind, 0}
+		case "limit-only":
+			return win{nil, &base, kind, 0}
+		}
+		return win{&base, &lim, kind, width}
+	}
+	wins = append(wins, mk("none", false, 0))
+	for _, sub := range []bool{false, true} {
+		wins = append(wins, mk("start-only", sub, 0), mk("limit-only", sub, 0))
+		for _, wd := range widths {
+			wins = append(wins, mk("both", sub, wd))
+		}
+	}
+	for i := 0; i < n/20; i++ {
+		kind := []string{"both", "both", "both", "start-only", "limit-only", "none"}[r.Intn(6)]
+		wd := widths[r.Intn(len(widths))]
+		if r.Intn(2) == 0 {
+			wd = time.Duration(1 + r.Int63n(int64(4*time.Second)))
+		}
+		wins = append(wins, mk(kind, r.Intn(2) == 0, wd))
+	}
+	for i, wn := range wins {
+		lo, hi := wn.lo, wn.hi
+		cfg := &ctfepb.LogConfig{}
+		if lo != nil {
+			cfg.NotAfterStart = timestamppb.New(*lo)
+		}
+		if hi != nil {
+			cfg.NotAfterLimit = timestamppb.New(*hi)
+		}
+		now0 := time.Now()
+		t, err := integration.NotAfterForLog(cfg)
+		now1 := time.Now()
+		input := map[string]interface{}{"kind": "not-after-for-log", "window": wn.kind, "lo": jt(lo), "hi": jt(hi), "width_ns": int64(wn.width)}
+		key := fmt.Sprintf("not-after-%d", i)
+		if err != nil {
+			w.Add(lib.Case{
+				Coq: fmt.Sprintf("CNotAfter %s 0 0 None 0 false None", iv(lo, hi)), Key: key,
+				Input: input, Impl: map[string]interface{}{"error": err.Error()},
+				PropOK: false, Note: fmt.Sprintf("NotAfterForLog fails on a log with not_after_start=%v not_after_limit=%v: %v", jt(lo), jt(hi), err), Tags: []string{"notafter:" + wn.kind + ":error"},
+			})
+			continue
+		}
+		// the certificate that carries it (X.509 validity times are whole seconds) and the server's verdict
+		der := leaf(t)
+		parsed, perr := x509.ParseCertificate(der)
+		if perr != nil {
+			panic(perr)
+		}
+		tc := parsed.NotAfter
+		opts := ctfe.NewCertValidationOpts(pool, time.Time{}, false, false, lo, hi, false, nil)
+		_, verr := ctfe.ValidateChain([][]byte{der, rootDER}, opts)
+		ctfeOK := verr == nil
+		viaConfig := i%4 == 1
+		cfgStatus := 0
+		if viaConfig {
+			env, eerr := ctfeenv.New(ctfeenv.Options{Roots: []*pki.Entity{{Cert: rootCert, DER: rootDER, Key: rootKey}}, Dir: *lib.OutDir,
+				Configure: func(c *ctfepb.LogConfig) { c.NotAfterStart, c.NotAfterLimit = cfg.NotAfterStart, cfg.NotAfterLimit }})
+			if eerr != nil {
+				cfgStatus = -1
+			} else {
+				env.Backend.QueueLeafFn = func(_ context.Context, req *trillian.QueueLeafRequest) (*trillian.QueueLeafResponse, error) {
+					return &trillian.QueueLeafResponse{QueuedLeaf: &trillian.QueuedLogLeaf{Leaf: req.Leaf}}, nil
+				}
+				cfgStatus = env.AddChain(false, [][]byte{der, rootDER}).Code
+			}
+		}
+		// the client of that single shard
+		clientObs, clientRoutes := "None", false
+		var clientJ interface{}
+		tlc, cerr := client.NewTemporalLogClient(&configpb.TemporalLogConfig{Shard: []*configpb.LogShardConfig{shardCfg(lo, hi)}}, nil)
+		if cerr == nil {
+			_, ierr := tlc.IndexByDate(t)
+			clientRoutes = ierr == nil
+			clientObs, clientJ = lib.Some(lib.Bool(clientRoutes)), clientRoutes
+		}
+		// direct oracle
+		ok, note := true, ""
+		desc := fmt.Sprintf("NotAfterForLog returns %s for a log with not_after_start=%v not_after_limit=%v (window of %v)", t.UTC().Format(time.RFC3339Nano), jt(lo), jt(hi), wn.width)
+		if wn.kind != "both" {
+			desc = fmt.Sprintf("NotAfterForLog returns %s for a log with not_after_start=%v not_after_limit=%v", t.UTC().Format(time.RFC3339Nano), jt(lo), jt(hi))
+		}
+		switch {
+		case !inside(t, lo, hi):
+			ok, note = false, desc+", which is outside the window start <= t < limit"
+		case cerr != nil:
+			ok, note = false, desc+"; a client of that one shard cannot be built: "+cerr.Error()
+		case !clientRoutes:
+			ok, note = false, desc+", which a client of that one shard routes nowhere"
+		case ctfeOK != inside(tc, lo, hi):
+			ok, note = false, fmt.Sprintf("%s; the server's window answers %v to the certificate carrying it (NotAfter %s, inside the window: %v)", desc, ctfeOK, tc.UTC().Format(time.RFC3339Nano), inside(tc, lo, hi))
+		case viaConfig && (cfgStatus == 200) != inside(tc, lo, hi):
+			ok, note = false, fmt.Sprintf("%s; the log configured with that window answers %d to the certificate carrying it (NotAfter %s, inside the window: %v)", desc, cfgStatus, tc.UTC().Format(time.RFC3339Nano), inside(tc, lo, hi))
+		}
+		if wn.kind == "none" {
+			input["t"] = "a day from now"
+		} else {
+			input["t"] = jt(&t)
+		}
+		tags := []string{"notafter:" + wn.kind}
+		if wn.kind == "both" {
+			switch {
+			case wn.width < time.Second:
+				tags = append(tags, "notafter:width<1s")
+			case wn.width < 2*time.Second:
+				tags = append(tags, "notafter:width<2s")
+			default:
+				tags = append(tags, "notafter:width>=2s")
+			}
+		}
+		w.Add(lib.Case{
+			Coq:    fmt.Sprintf("CNotAfter %s %s %s %s %s %s %s", iv(lo, hi), lib.ZBig(ns(now0)), lib.ZBig(ns(now1)), lib.Some(lib.ZBig(ns(t))), lib.ZBig(ns(tc)), lib.Bool(ctfeOK), clientObs),
+			Key:    key,
+			Input:  input,
+			Impl:   map[string]interface{}{"ctfe_admits_certificate": ctfeOK, "client_routes": clientJ, "configured_log_status": cfgStatus, "certificate_not_after": jt(&tc)},
+			PropOK: ok, Note: note, Tags: tags,
+		})
+	}
 }
